@@ -132,6 +132,7 @@ func (e *Engine) step(st *State, fr *Frame, in ssa.Instruction, onReturn func(*S
 		addr := e.val(st, fr, x.Addr).(VPtr)
 		e.checkDeref(st, fr, addr, in)
 		e.frameCheckStore(st, fr, addr.L, in)
+		e.lockCheck(st, fr, addr.L, true, in)
 		e.store(st, addr.L, e.val(st, fr, x.Val))
 	case *ssa.UnOp:
 		fr.regs[x] = e.execUnOp(st, fr, x)
@@ -319,7 +320,9 @@ func (e *Engine) execUnOp(st *State, fr *Frame, x *ssa.UnOp) Val {
 			return ZeroVal(x.Type())
 		}
 		e.lockCheckRead(st, fr, p.L, x)
-		return e.load(st, p.L)
+		lv := e.load(st, p.L)
+		e.noteGuardedValue(st, p.L, lv)
+		return lv
 	case token.NOT:
 		return VBool{Not(v.(VBool).T)}
 	case token.SUB:
